@@ -838,6 +838,14 @@ func execConfusedQueries(d *xdb, r *hx.Rng, t1, t2 xtable) {
 		"SELECT * FROM t1 GROUP BY a", "SELECT * FROM t1 GROUP BY nosuch", "SELECT * FROM n1 GROUP BY k", "SELECT * FROM n1 GROUP BY k, k",
 		"SELECT * FROM n1 GROUP BY nosuch", "SELECT * FROM n2 GROUP BY k, b", "SELECT * FROM n1 JOIN n1 x ON TRUE GROUP BY k", "SELECT * FROM n2 GROUP BY b, k, b",
 		"SELECT count(*) FROM t1 GROUP BY a", "SELECT count(*) FROM n1 GROUP BY k", "SELECT k FROM n1 GROUP BY k, k",
+		// outer joins between a wide and a narrow table with unmatched rows on the narrow side, a LATE column of the
+		// wide side named in the select list, WHERE, ORDER BY, an aggregate (tenth seeded round: one padding row of
+		// the narrow side's width shared by both outer joins - index out of range)
+		"SELECT t1.d, n1.k FROM t1 RIGHT JOIN n1 ON t1.k = n1.k AND t1.k > 100", "SELECT t1.c, t1.d, n2.b FROM t1 RIGHT JOIN n2 ON t1.k = n2.k AND t1.a > 100",
+		"SELECT n1.k FROM t1 RIGHT JOIN n1 ON t1.k = n1.k AND t1.k > 100 ORDER BY t1.d", "SELECT count(t1.d), count(*) FROM t1 RIGHT JOIN n1 ON t1.k > 100",
+		"SELECT n1.k FROM t1 RIGHT JOIN n1 ON t1.k > 100 WHERE t1.d = 1 OR n1.k >= 0", "SELECT n1.k, t1.d FROM n1 LEFT JOIN t1 ON t1.k = n1.k AND t1.k > 100",
+		"SELECT n2.b, t1.c FROM n2 LEFT JOIN t1 ON n2.k = t1.k AND t1.a > 100 ORDER BY t1.c", "SELECT t1.d, n1.k FROM t1 LEFT JOIN n1 ON t1.k = n1.k AND n1.k > 100",
+		"SELECT n1.k, t1.d FROM n1 RIGHT JOIN t1 ON t1.k = n1.k AND n1.k > 100", "SELECT avg(t1.a), count(n1.k) FROM t1 RIGHT JOIN n1 ON t1.k > 100",
 	}
 	for _, q := range qs {
 		d.query(q, "judged", "confused")
